@@ -931,3 +931,87 @@ Theorem C11_lits_solve_reports : forall oracle, oracle_sound_on oracle -> oracle
   solve_reports oracle st (seq 0 (h * w)) (rules_lits (List.cons (List.cons (Z.of_nat h) (List.cons (Z.of_nat w) nil)) (List.cons region nil))).
 Proof. exact lits_solve_reports. Qed.
 Print Assumptions C11_lits_solve_reports.
+
+(* ================= native-operator route (cspuz.config.use_graph_primitive / use_graph_division_primitive ON: the
+   defaults with the csugar / enigma_csp / cspuz_core backends).  Each graph helper posts ONE native node whose meaning
+   the graph properties C04-C07 define as the specification; the models solve_<p>_model_prim (Puzzle/<P>Prim.v) are tied
+   to the Python by a second program capture with the flags on; same hypotheses, rules and answer arrays as above. *)
+From Cspuz Require Import Graph.Avc Puzzle.Rules_view Puzzle.ViewPrim.
+Theorem C11_view_exact_native : forall h w grid st ans,
+  solve_view_model_prim (List.cons (List.cons (Z.of_nat h) (List.cons (Z.of_nat w) nil)) (List.cons grid nil)) = Ok st ->
+  ((exists en, model_of gsem_avc en st /\
+               reads st en (seq (h * w) (h * w) ++ seq 0 (h * w)) = ans)
+   <-> rules_view (List.cons (List.cons (Z.of_nat h) (List.cons (Z.of_nat w) nil)) (List.cons grid nil)) ans = true).
+Proof. exact view_exact_prim. Qed.
+Print Assumptions C11_view_exact_native.
+
+From Cspuz Require Import Graph.Avc Puzzle.Rules_yinyang Puzzle.YinyangPrim.
+Theorem C11_yinyang_exact_native : forall h w grid st ans,
+  solve_yinyang_model_prim (List.cons (List.cons (Z.of_nat h) (List.cons (Z.of_nat w) nil)) (List.cons grid nil)) = Ok st ->
+  ((exists en, model_of gsem_avc en st /\ reads st en (seq 0 (h * w)) = ans)
+   <-> rules_yinyang (List.cons (List.cons (Z.of_nat h) (List.cons (Z.of_nat w) nil)) (List.cons grid nil)) ans = true).
+Proof. exact yinyang_exact_prim. Qed.
+Print Assumptions C11_yinyang_exact_native.
+
+From Cspuz Require Import Graph.Avc Puzzle.Rules_norinori Puzzle.Rules_nanro Puzzle.NanroPrim.
+Theorem C11_nanro_exact_native : forall h w room num st ans,
+  solve_nanro_model_prim (List.cons (List.cons (Z.of_nat h) (List.cons (Z.of_nat w) nil)) (List.cons room (List.cons num nil))) = Ok st ->
+  ((exists en, model_of gsem_avc en st /\ reads st en (seq (h * w) (h * w)) = ans)
+   <-> rules_nanro (List.cons (List.cons (Z.of_nat h) (List.cons (Z.of_nat w) nil)) (List.cons room (List.cons num nil))) ans = true).
+Proof. exact nanro_exact_prim. Qed.
+Print Assumptions C11_nanro_exact_native.
+
+Theorem C11_nanro_keys_native : forall h w room num st,
+  solve_nanro_model_prim (List.cons (List.cons (Z.of_nat h) (List.cons (Z.of_nat w) nil)) (List.cons room (List.cons num nil))) = Ok st ->
+  keys st = (repeat false (h * w) ++ repeat true (h * w) ++ repeat false (n_regions room))%list.
+Proof. exact nanro_keys_prim. Qed.
+Print Assumptions C11_nanro_keys_native.
+
+From Cspuz Require Import Graph.Avc Puzzle.Rules_nurimaze Puzzle.Nurimaze Puzzle.NurimazePrim.
+Theorem C11_nurimaze_model_native_same : forall pb, solve_nurimaze_model_prim pb = solve_nurimaze_model pb.
+Proof. exact solve_nurimaze_model_prim_eq. Qed.
+Print Assumptions C11_nurimaze_model_native_same.
+
+Theorem C11_nurimaze_exact_native : forall h w wv wh mark sy sx gy gx st ans,
+  on_board h w sy sx = true \/ on_board h w gy gx = true ->
+  solve_nurimaze_model_prim (List.cons (List.cons (Z.of_nat h) (List.cons (Z.of_nat w) nil)) (List.cons wv (List.cons wh
+     (List.cons mark (List.cons (List.cons sy (List.cons sx (List.cons gy (List.cons gx nil)))) nil))))) = Ok st ->
+  ((exists en, model_of gsem_avc en st /\ reads st en (seq 0 (h * w)) = ans)
+   <-> rules_nurimaze (List.cons (List.cons (Z.of_nat h) (List.cons (Z.of_nat w) nil)) (List.cons wv (List.cons wh
+     (List.cons mark (List.cons (List.cons sy (List.cons sx (List.cons gy (List.cons gx nil)))) nil))))) ans = true).
+Proof. exact nurimaze_exact_gen_prim. Qed.
+Print Assumptions C11_nurimaze_exact_native.
+
+From Cspuz Require Import Graph.Cycle Puzzle.CyclePrimCompose Puzzle.SlitherlinkPrim.
+Theorem C11_slitherlink_exact_native : forall h w clues st ans,
+  solve_slitherlink_model_prim (List.cons (List.cons (Z.of_nat h) (List.cons (Z.of_nat w) nil)) (List.cons clues nil)) = Ok st ->
+  ((exists en, model_of gsem_c06 en st /\ reads st en (seq 0 (S h * w + h * S w)) = ans)
+   <-> rules_slitherlink (List.cons (List.cons (Z.of_nat h) (List.cons (Z.of_nat w) nil)) (List.cons clues nil)) ans = true).
+Proof. exact slitherlink_exact_prim. Qed.
+Print Assumptions C11_slitherlink_exact_native.
+
+From Cspuz Require Import Puzzle.MasyuPrim.
+Theorem C11_masyu_exact_native : forall h w circles st ans,
+  solve_masyu_model_prim (List.cons (List.cons (Z.of_nat h) (List.cons (Z.of_nat w) nil)) (List.cons circles nil)) = Ok st ->
+  ((exists en, model_of gsem_c06 en st /\ reads st en (seq 0 (n_lattice_edges h w)) = ans)
+   <-> rules_masyu (List.cons (List.cons (Z.of_nat h) (List.cons (Z.of_nat w) nil)) (List.cons circles nil)) ans = true).
+Proof. exact masyu_exact_prim. Qed.
+Print Assumptions C11_masyu_exact_native.
+
+From Cspuz Require Import Puzzle.GeradewegPrim.
+Theorem C11_geradeweg_exact_native : forall h w clues st ans,
+  solve_geradeweg_model_prim (List.cons (List.cons (Z.of_nat h) (List.cons (Z.of_nat w) nil)) (List.cons clues nil)) = Ok st ->
+  ((exists en, model_of gsem_c06 en st /\ reads st en (seq 0 (h * (w - 1) + (h - 1) * w)) = ans)
+   <-> rules_geradeweg (List.cons (List.cons (Z.of_nat h) (List.cons (Z.of_nat w) nil)) (List.cons clues nil)) ans = true).
+Proof. exact geradeweg_exact_prim. Qed.
+Print Assumptions C11_geradeweg_exact_native.
+
+From Cspuz Require Import Puzzle.SimpleloopPrim.
+Theorem C11_simpleloop_exact_native : forall h w py px blocked st ans,
+  solve_simpleloop_model_prim (List.cons (List.cons (Z.of_nat h) (List.cons (Z.of_nat w) (List.cons (Z.of_nat py) (List.cons (Z.of_nat px) nil))))
+                                         (List.cons blocked nil)) = Ok st ->
+  ((exists en, model_of gsem_c06 en st /\ reads st en (seq 0 (h * (w - 1) + (h - 1) * w)) = ans)
+   <-> rules_simpleloop (List.cons (List.cons (Z.of_nat h) (List.cons (Z.of_nat w) (List.cons (Z.of_nat py) (List.cons (Z.of_nat px) nil))))
+                                   (List.cons blocked nil)) ans = true).
+Proof. exact simpleloop_exact_prim. Qed.
+Print Assumptions C11_simpleloop_exact_native.
